@@ -33,6 +33,7 @@ def worker(job):
         reg = registry.load()
         ex = Executor(src, reg.contracts, reg.models, reg.spec_funcs(src))
         ex.opq_model_table = reg.opq_models
+        ex.spec_ufs = reg.spec_ufs
         c = reg.contracts[key]
         try:
             fn, owner, module, ent = (lambda r: r)(ex.find_function(key, c))
